@@ -413,6 +413,34 @@ def run(ctx):
     except (TypeError, ValueError, IndexError, AttributeError) as e:
         ctx.violation("D/multiplication/segment/raises", "multiplication", params, "raised %s" % e)
     ctx.concrete("multiplication", "multiplication", params)
+    # mode='inner': (g . f_j) tested with a scalar space, g and f_j RWG functions
+    ABS.reset()
+    g2 = W.symgrid("T2", tag="di")
+    gd2 = g2.data()
+    rw = b.function_space(g2, "RWG", 0, include_boundary_dofs=True)
+    dq = b.function_space(g2, "DP", 0)
+    cg2 = sym_array("gi", (rw.global_dof_count,))
+    params2 = {"mesh": "T2", "order": order, "mode": "inner"}
+    try:
+        Mi = MultiplicationOperator(b.GridFunction(rw, coefficients=cg2), rw, dq, dq, mode="inner").weak_form().to_sparse().toarray()
+        spec = np.empty(Mi.shape, dtype=object)
+        spec.fill(ZERO)
+        for el in range(g2.number_of_elements):
+            lb = local_basis(rw, el)
+            for j in range(3):
+                acc = ZERO
+                for q in range(nq):
+                    gq = [sum((cg2[int(rw.local2global[el, k_])] * peval(lb[k_][d_], pts[0, q], pts[1, q]) for k_ in range(3)), ZERO) for d_ in range(3)]
+                    fq = [peval(lb[j][d_], pts[0, q], pts[1, q]) for d_ in range(3)]
+                    acc = acc + (gq[0] * fq[0] + gq[1] * fq[1] + gq[2] * fq[2]) * wts[q]
+                gi, gj = int(dq.local2global[el, 0]), int(rw.local2global[el, j])
+                spec[gi, gj] = spec[gi, gj] + acc * gd2.integration_elements[el]
+        for idx in np.ndindex(*spec.shape):
+            names = ABS.atoms_in([eq_formula(Mi[idx], spec[idx])])
+            ctx.prove("D/multiplication/inner/%d_%d" % idx, eq_formula(Mi[idx], spec[idx]), [a_ > 0 for a_ in ABS.sqrt_args(names)], family="multiplication_inner", params=params2, abs_cons="cone", group="D-multiplication-inner")
+    except (TypeError, ValueError, IndexError, AttributeError) as e:
+        ctx.violation("D/multiplication/inner/raises", "multiplication_inner", params2, "raised %s: %s" % (type(e).__name__, e))
+    ctx.concrete("multiplication_inner", "multiplication_inner", params2)
     ctx.twin("twin/multiplication-wrong-element", eq_formula(ONE * gd.integration_elements[1], ONE * gd.integration_elements[0]), [], abs_cons=False)
 
 
@@ -524,6 +552,23 @@ def concrete(family, params):
         gap = max(worst.values())
         k = max(worst, key=worst.get)
         return {"gap": gap if gap > 1e-10 else 0.0, "detail": worst, "key": "gf_%s/%s" % (k, spc[0])}
+    if family == "multiplication_inner":
+        rw = b.function_space(g, "RWG", 0, include_boundary_dofs=True)
+        dq = b.function_space(g, "DP", 0)
+        cg = np.random.RandomState(4).rand(rw.global_dof_count)
+        try:
+            Mi = MultiplicationOperator(b.GridFunction(rw, coefficients=cg), rw, dq, dq, mode="inner").weak_form().to_sparse().toarray()
+        except Exception as ex:
+            return {"gap": 1.0, "raised": "%s: %s" % (type(ex).__name__, str(ex)[:160]), "key": "multiplication/inner/raises"}
+        spec = np.zeros(Mi.shape)
+        for el in range(g.number_of_elements):
+            bb = _np_basis(rw, el, pts)  # (3, 3, nq)
+            gq = np.einsum("diq,i->dq", bb, cg[rw.local2global[el]])
+            loc = np.einsum("dq,djq,q->j", gq, bb, w) * gd.integration_elements[el]
+            for j in range(3):
+                spec[dq.local2global[el, 0], rw.local2global[el, j]] += loc[j]
+        gap = float(np.max(np.abs(Mi - spec)) / np.max(np.abs(spec)))
+        return {"gap": gap if gap > 1e-10 else 0.0, "key": "multiplication/inner"}
     if family == "multiplication":
         dp0 = b.function_space(g, "DP", 0)
         p1s = b.function_space(g, "P", 1, segments=[1, 2], include_boundary_dofs=True)
